@@ -2,7 +2,8 @@
    ty = 0 (Rat, numbers (num den)) | 1 (Fp, residues)
    (14 1 ty (x ..)) mean | (14 2 ty (x ..)) variance | (14 3 ty (n0 n1) rows fd) covariance of
    the samples-by-features data `rows` through covariance_row_features, covariance_column_features
-   and covariance(tensor named (n0 n1), fd) | (14 5 ty (x ..)) softmax | (14 6 ty p r) f1_score |
+   and covariance(tensor named (n0 n1), fd) | (14 4 ty route (n0 n1) rows fd) one covariance route only (0 rows,
+   1 columns, 2 tensor; tall / wide data) | (14 5 ty (x ..)) softmax | (14 6 ty p r) f1_score |
    (14 7 ((m e) ..)) float oracle: softmax over the f64 values m*10^e must have the same length, be
    finite and non-negative, sum to one within 1e-9 and preserve order (expected (1 1 1 1))"""
 import itertools
@@ -103,6 +104,26 @@ def gen(tier, rng):
                 vals[rng.randrange(n)] = vals[rng.randrange(n)]
             yield sx([14, 5, ty, vals])
 
+    # ---- long inputs (size-triggered fast paths: blocks of 256 etc.): cheap values, both types
+    for n in (255, 256, 257, 300, 513) if quick else (255, 256, 257, 300, 511, 512, 513, 769, 1025):
+        for ty in (0, 1):
+            vals = [num(ty, rng.choice([-2, -1, 0, 1, 2, 3])) for _ in range(n)]
+            yield sx([14, 5, ty, vals])
+            yield sx([14, 1, ty, vals])
+            yield sx([14, 2, ty, vals])
+    yield sx([14, 7, [[rng.randrange(-50, 51), 0] for _ in range(300)]])
+    yield sx([14, 7, [[rng.randrange(-50, 51), rng.choice([0, 1, 2])] for _ in range(513)]])
+    # tall and wide covariance data, one route per case (op 4): the orientation whose result is small
+    for (r, c) in ((300, 2), (2, 300), (257, 3), (3, 513)) if quick else ((300, 2), (2, 300), (257, 3), (3, 513), (769, 2), (4, 1025)):
+        for ty in (0, 1):
+            rows = [[num(ty, rng.choice([-1, 0, 1, 2])) for _ in range(c)] for _ in range(r)]
+            if r > c:       # samples x features: column features / tensor with the second name
+                yield sx([14, 4, ty, 1, [0, 1], rows, 1])
+                yield sx([14, 4, ty, 2, [0, 1], rows, 1])
+            else:           # features x samples: row features / tensor with the first name
+                yield sx([14, 4, ty, 0, [0, 1], rows, 0])
+                yield sx([14, 4, ty, 2, [3, 2], rows, 3])
+
     # ---- float oracle (softmax stability): large magnitudes, mixed signs, huge spreads
     for _ in range(400 if quick else 8000):
         n = rng.choice([1, 2, 3, 4, 6, 9, 12])
@@ -142,6 +163,8 @@ def nontrivial(case, model_out):
         return len(t[2]) >= 2
     if t[1] in (1, 2, 5):
         return len(t[3]) >= 2
+    if t[1] == 4:
+        return True
     if t[1] == 3:
         return len(t[4]) >= 2 and len(t[4][0]) >= 2 and "(2)" not in model_out
     return True
